@@ -13,9 +13,11 @@ Protocol front-end for C15.
       a cycle is `<k v…> ; <k e…>`; canonical cycles are rotated (direction kept) so that the smallest
       vertex comes first and sorted; the polyline is `<#vertices> ; <k a b …>` = its edges mapped back
       to surface vertex pairs, sorted.
-  `f <nv> <nf> (<len> v…)* <nruns> (<same_detector> <only_border> <nE> (<hard> <d> <q>)*)* <nv> (<x>|N)*`
+  `f <nv> <nf> (<len> v…)* <nruns> (<same_detector> <only_border> <normals_injected> <nE> (<hard> <d> <q>)*)* <nv> (<x>|N)*`
       a HISTORY of detector runs on one mesh object (the last one is the run observed; earlier ones were made
-      with the same detector object or with another one); per run and canonical edge: hard flag and `(d,q)` of
+      with the same detector object or with another one); per run: whether the caller wrote a `normals` attribute just
+      before it (then `(d,q)` are those of that attribute, else those of the geometry the mesh has at that moment);
+      per run and canonical edge: hard flag and `(d,q)` of
       Model/Features.lean; per vertex `x = angle·order/2π` (last run).  The model threads the mesh's `feature`
       attribute and the detector's containers through the runs (Model/FeatRuns.lean) with the reset flags
       translated from the source (Generated/C15Run.lean).
@@ -69,13 +71,14 @@ def edgeIn : P (Bool × Rat × Rat) := do
   pure (h, d, q)
 
 /-- one run of the history: was it made with the final detector object, `only_border`, per-edge inputs -/
-def runIn : P (Bool × Bool × List (Bool × Rat × Rat)) := do
+def runIn : P (Bool × Bool × Bool × List (Bool × Rat × Rat)) := do
   let sd ← bool
   let ob ← bool
+  let inj ← bool
   let ein ← listOf edgeIn
-  pure (sd, ob, ein)
+  pure (sd, ob, inj, ein)
 
-def features (nv : Nat) (faces : Faces) (runs : List (Bool × Bool × List (Bool × Rat × Rat)))
+def features (nv : Nat) (faces : Faces) (runs : List (Bool × Bool × Bool × List (Bool × Rat × Rat)))
     (xs : List (Option Rat)) : String :=
   let S := build nv faces true
   let th := Mouette.Generated.C15.thresholds
@@ -83,7 +86,7 @@ def features (nv : Nat) (faces : Faces) (runs : List (Bool × Bool × List (Bool
   let mk (ein : List (Bool × Rat × Rat)) : List EdgeInfo := (S.edges.zip ein).map fun (ab, h, d, q) =>
     let tf := edgeToFaces S ab.1 ab.2
     { a := ab.1, b := ab.2, t1 := tf.1, t2 := tf.2, border := isEdgeOnBorder S ab.1 ab.2, hard := h, d := d, q := q }
-  let hist := runs.map fun (sd, ob, ein) => (sd, ({ onlyBorder := ob, es := mk ein } : RunInput))
+  let hist := runs.map fun (sd, ob, inj, ein) => (sd, ({ onlyBorder := ob, inj := inj, es := mk ein } : RunInput))
   -- the state after all the runs, on a mesh and a detector that were fresh before the first one
   let st := runHistory fl th nv RunState.fresh hist
   let flags := st.featE.getD []
